@@ -2,7 +2,13 @@
    Executable definitions + the (relational, nondeterministic) concrete store semantics.
    No lemmas here (Proofs/EffectsFacts.v).
 
-   IR (DESIGN C15):  stmt := Skip | Bind x rhs | Write x | Call rets f args | Seq | If | Loop.
+   IR (DESIGN C15):  stmt := Skip | Bind x rhs | Write x | Call rets f args | CallDyn rets gs args
+                             | Seq | If | Loop.
+   [CallDyn rets gs args] is the call of a RUN-TIME callable (a parameter such as `heuristic`, `Hk`,
+   `adjacency`, `distance_func`, `function`): the callee is ANY of the koala functions [gs] (the
+   translator lists every koala function / closure that is ever used as a first-class value),
+   applied to ARBITRARY argument values, or a foreign callable that is effect-free (assumption,
+   see harness/c15.py ASSUMPTIONS) and returns anything.
    A value has two sets of abstract locations: [own] (the buffers a store THROUGH this
    value changes: `x[i] = v`, `x += 1`, `x.sort()`, `np.add.at(x, ..)`) and [reach]
    (everything reachable from the value: fields, elements, base buffers).
@@ -39,6 +45,7 @@ Inductive stmt :=
 | Bind (x : var) (r : rhs)
 | Write (x : var)
 | Call (rets : list var) (f : fname) (args : list var)
+| CallDyn (rets : list var) (gs : list fname) (args : list var)
 | Seq (s1 s2 : stmt)
 | If (s1 s2 : stmt)
 | Loop (s : stmt).
@@ -87,6 +94,17 @@ Inductive exec (p : program) : stmt -> cstate -> cstate -> Prop :=
     exec p (f_body fd) (CS (call_env (f_nparams fd) (map (env st) args)) (heap st) (next st)) st' ->
     Forall2 (fun v i => sub_val v (env st' i)) vs (seq 0 (length rets)) ->
     exec p (Call rets f args) st (CS (upd_list (env st) rets vs) (heap st') (next st'))
+(* run-time callable = one of koala's first-class functions gs, on arbitrary argument values
+   (captured variables included: they are formals of the lifted closure) *)
+| E_CallDyn : forall rets gs args g fd st st' argvals vs,
+    In g gs -> nth_error p g = Some fd ->
+    exec p (f_body fd) (CS (call_env (f_nparams fd) argvals) (heap st) (next st)) st' ->
+    Forall2 (fun v i => sub_val v (env st' i)) vs (seq 0 (length rets)) ->
+    exec p (CallDyn rets gs args) st (CS (upd_list (env st) rets vs) (heap st') (next st'))
+(* run-time callable = foreign, effect-free: may allocate, returns any values *)
+| E_CallDynExt : forall rets gs args st vs h',
+    (forall l, l <> next st -> h' l = heap st l) ->
+    exec p (CallDyn rets gs args) st (CS (upd_list (env st) rets vs) h' (S (next st)))
 | E_Seq : forall s1 s2 st st1 st2,
     exec p s1 st st1 -> exec p s2 st1 st2 -> exec p (Seq s1 s2) st st2
 (* the rest of a sequence may be skipped: exception, early return, break, continue *)
@@ -104,6 +122,7 @@ Inductive exec (p : program) : stmt -> cstate -> cstate -> Prop :=
 Definition aval := (bool * bool)%type.
 Definition aenv := list aval.
 Definition abot : aval := (false, false).
+Definition atop : aval := (true, true).
 Definition aget (a : aenv) (x : var) : aval := nth x a abot.
 Fixpoint aset (a : aenv) (x : var) (v : aval) : aenv :=
   match x, a with
@@ -139,6 +158,7 @@ Definition aeval (a : aenv) (r : rhs) : aval :=
 
 Section AEXEC.
   Variable callf : fname -> list aval -> option aenv.   (* analysis of a callee in this context *)
+  Variable dynok : fname -> bool.     (* verified separately: accepted with EVERY formal tainted *)
   Variable lf : nat.                                     (* loop fixpoint fuel; exhaustion => None *)
 
   Fixpoint loop_fix (body : aenv -> option aenv) (n : nat) (a : aenv) : option aenv :=
@@ -159,6 +179,10 @@ Section AEXEC.
       | None => None
       | Some ac => Some (aset_list a rets (map (aget ac) (seq 0 (length rets))))
       end
+    | CallDyn rets gs _ =>
+      (* every possible callee must have been verified with all formals tainted (fail closed);
+         the results may be anything: tainted *)
+      if forallb dynok gs then Some (aset_list a rets (repeat atop (length rets))) else None
     | Seq s1 s2 =>
       match aexec s1 a with
       | Some a1 => match aexec s2 a1 with Some a2 => Some (ajoin a1 a2) | None => None end
@@ -175,22 +199,51 @@ End AEXEC.
 
 (* context-sensitive inter-procedural analysis: the callee's body is analysed with the
    abstract values of the actual arguments; [d] bounds the call depth (exhaustion => None). *)
-Fixpoint afun (p : program) (lf : nat) (d : nat) (f : fname) (avs : list aval) : option aenv :=
+Fixpoint afun (p : program) (dynok : fname -> bool) (lf : nat) (d : nat) (f : fname) (avs : list aval) : option aenv :=
   match d with
   | 0 => None
   | S d' =>
     match nth_error p f with
     | None => None
-    | Some fd => aexec (afun p lf d') lf (f_body fd) (repeat abot NRET ++ firstn (f_nparams fd) avs)
+    | Some fd => aexec (afun p dynok lf d') dynok lf (f_body fd) (repeat abot NRET ++ firstn (f_nparams fd) avs)
     end
   end.
 
 Definition LOOP_FUEL := 64.
 Definition mask_avals (mask : list bool) : list aval := map (fun b : bool => (b, b)) mask.
 
+(* ---- run-time callables: the candidate callees are all functions named in some CallDyn; each is
+   verified ONCE with every formal tainted, under the assumption that the candidates (which may
+   call run-time callables themselves, e.g. `_heuristic` calls `heuristic`) are fine — an
+   assume/guarantee argument justified by induction on the execution (EffectsFacts.exec_sound) *)
+Fixpoint stmt_targets (s : stmt) : list fname :=
+  match s with
+  | CallDyn _ gs _ => gs
+  | Seq s1 s2 | If s1 s2 => stmt_targets s1 ++ stmt_targets s2
+  | Loop s1 => stmt_targets s1
+  | _ => []
+  end.
+Definition prog_targets (p : program) : list fname :=
+  nodup Nat.eq_dec (flat_map (fun fd => stmt_targets (f_body fd)) p).
+Definition mem_target (T : list fname) (g : fname) : bool := existsb (Nat.eqb g) T.
+Definition top_env (np : nat) : aenv := repeat abot NRET ++ repeat atop np.
+Definition target_verified (p : program) (T : list fname) (g : fname) : bool :=
+  match nth_error p g with
+  | None => false
+  | Some fd =>
+    match aexec (afun p (mem_target T) LOOP_FUEL (S (length p))) (mem_target T) LOOP_FUEL
+                (f_body fd) (top_env (f_nparams fd)) with
+    | Some _ => true
+    | None => false
+    end
+  end.
+Definition dyn_ok (p : program) : fname -> bool :=
+  if forallb (target_verified p (prog_targets p)) (prog_targets p)
+  then mem_target (prog_targets p) else fun _ => false.
+
 (* may function f write a location reachable from the formals selected by [mask]? *)
 Definition no_arg_write_mask (p : program) (f : fname) (mask : list bool) : bool :=
-  match afun p LOOP_FUEL (S (length p)) f (mask_avals mask) with Some _ => true | None => false end.
+  match afun p (dyn_ok p) LOOP_FUEL (S (length p)) f (mask_avals mask) with Some _ => true | None => false end.
 
 Definition no_arg_write_entry (p : program) (e : fname * list bool) : bool :=
   no_arg_write_mask p (fst e) (snd e).
